@@ -148,6 +148,14 @@ impl Deserializable for Context {
         // read options
         let options = ProofOptions::read_from(source)?;
 
+        // Context::new() refuses LDE domains which do not fit into 32 bits; enforce the same
+        // limit for contexts read from bytes
+        if trace_info.length() * options.blowup_factor() > u32::MAX as usize {
+            return Err(DeserializationError::InvalidValue(
+                "LDE domain size too big".to_string(),
+            ));
+        }
+
         Ok(Context { trace_info, field_modulus_bytes, options })
     }
 }
